@@ -280,7 +280,7 @@ Definition r_cmp_fields (op : cmpop) (sk : src_kind) (cs : list cmp_field) : tok
   | CPartialEq =>
       match cs with
       | [] => [TI "true"]
-      | _ => sep_by [TP "&&"] (map (r_cmp_expr op sk) cs)
+      | _ => sep_by [TP "&&"] (map (fun c => tparen (r_cmp_expr op sk c)) cs)
       end
   | CPartialOrd =>
       concat (map (fun c => [TI "match"] ++ r_cmp_expr op sk c ++
